@@ -68,7 +68,6 @@ Definition abs_ev (c : cs) (stored : bytes) (e : eventx) : cevx :=
   let ce := match x_ev e with
             | ERun => if ran c then CNop else CRun
             | ERecv v =>
-                if wclosed c then CNop else
                 match v_dg v with
                 | NotDatagram =>
                     match v_cl v with
@@ -135,27 +134,30 @@ Definition close_args (e : event) (k : ccode) : N * bool :=
              end
   end.
 
-(* fill the data into one event's control observations *)
+(* fill the data into one control observation *)
+Definition conc1 (d : dstate) (e : event) (o : cobs) : dstate * list obs :=
+  match o with
+  | BEv _ => (d, [])
+  | BReport s er => (d, [OReport s er])
+  | BWrite m ok => (d, [OWrite (frame_of d e m) ok])
+  | BPairedQ a => (d, [OPairedQ a]) | BAutoQ a => (d, [OAutoQ a]) | BAllowQ a => (d, [OAllowQ a])
+  | BSetup => (d, [OSetup])
+  | BShipId => (mkD (ev_presented e) (d_local d) (d_buf d), [OShipId (ev_presented e)])
+  | BDeliver => (d, [ODeliver (ev_payload e)])
+  | BBuffer => (mkD (d_stored d) (d_local d) (d_buf d ++ [ev_payload e]), [])
+  | BFlush => (mkD (d_stored d) (d_local d) [], map ODeliver (d_buf d))
+  | BCloseData k => (d, [OCloseData (fst (close_args e k)) (snd (close_args e k))])
+  | BClosedCb b => (d, [OClosedCb b])
+  | BPanic => (d, [OPanic]) | BHang => (d, [OHang]) | BFuel => (d, [OFuel])
+  | BSnap s er a t rd => (d, [OSnap s er a t rd (N.of_nat (length (d_buf d)))])
+  end.
+
+(* ... and into one event's control observations, in order *)
 Fixpoint conc (d : dstate) (e : event) (l : list cobs) : dstate * list obs :=
   match l with
   | [] => (d, [])
   | o :: r =>
-      let '(d1, os) :=
-        match o with
-        | BEv _ => (d, [])
-        | BReport s er => (d, [OReport s er])
-        | BWrite m ok => (d, [OWrite (frame_of d e m) ok])
-        | BPairedQ a => (d, [OPairedQ a]) | BAutoQ a => (d, [OAutoQ a]) | BAllowQ a => (d, [OAllowQ a])
-        | BSetup => (d, [OSetup])
-        | BShipId => (mkD (ev_presented e) (d_local d) (d_buf d), [OShipId (ev_presented e)])
-        | BDeliver => (d, [ODeliver (ev_payload e)])
-        | BBuffer => (mkD (d_stored d) (d_local d) (d_buf d ++ [ev_payload e]), [])
-        | BFlush => (mkD (d_stored d) (d_local d) [], map ODeliver (d_buf d))
-        | BCloseData k => let '(c, rs) := close_args e k in (d, [OCloseData c rs])
-        | BClosedCb b => (d, [OClosedCb b])
-        | BPanic => (d, [OPanic]) | BHang => (d, [OHang]) | BFuel => (d, [OFuel])
-        | BSnap s er a t rd => (d, [OSnap s er a t rd (N.of_nat (length (d_buf d)))])
-        end in
+      let '(d1, os) := conc1 d e o in
       let '(d2, os2) := conc d1 e r in
       (d2, os ++ os2)
   end.
